@@ -27,8 +27,10 @@ VARIABLES tbl,    \* Seq([id, v])  the table as the transaction sees it
 vars == <<tbl, base, cur, out>>
 ViewNoOut == <<tbl, base, cur>>
 
-Queries == {"all", "big"}      \* SELECT id, v FROM t   |   SELECT id, v FROM t WHERE v >= 2
-Eval(q, t) == IF q = "all" THEN t ELSE SelectSeq(t, LAMBDA r : r.v >= 2)
+\* SELECT id, v FROM t | SELECT id, v FROM t WHERE v >= 2 | a prepared SELECT id, v INTO @ia, @ib FROM t (an error if it
+\* yields more than one row: the cursor cannot be opened then)
+Queries == {"all", "big", "into"}
+Eval(q, t) == IF q = "big" THEN SelectSeq(t, LAMBDA r : r.v >= 2) ELSE t
 
 NoCursor == [decl |-> FALSE, q |-> "all", open |-> FALSE, view |-> <<>>, idx |-> 0, fetched |-> FALSE]
 
@@ -59,6 +61,7 @@ Dispose(c) ==
 Open(c) ==
   /\ IF ~cur[c].decl THEN out' = Err("UndeclaredCursor") /\ UNCHANGED cur
      ELSE IF cur[c].open THEN out' = Err("CursorOpen") /\ UNCHANGED cur
+     ELSE IF cur[c].q = "into" /\ Len(tbl) > 1 THEN out' = Err("SelectIntoTooManyRecords") /\ UNCHANGED cur   \* OPEN failed: the cursor is as it was
      ELSE /\ out' = Ok
           /\ cur' = [cur EXCEPT ![c] = [@ EXCEPT !.open = TRUE, !.view = Eval(cur[c].q, tbl), !.idx = -1, !.fetched = FALSE]]
   /\ UNCHANGED <<tbl, base>>
